@@ -57,6 +57,7 @@ func init() {
 		{"C07", "adder", props.C07adder},
 		{"C05", "adder", props.C07adder},
 		{"C17", "garble", props.C01},
+		{"C11", "directwrite", props.TransportWriteExclusive},
 		{"C04", "constbalance", props.ConstBalance},
 		{"C03", "constbalance", props.ConstBalance},
 		{"C05", "constbalance", props.ConstBalance},
